@@ -11,8 +11,10 @@ TARGETS = ["Base/Corr.vo", "C11/Model.vo", "C11/Spec.vo", "C11/ProofsMap.vo", "C
            "C03/ProofsAlias.vo", "C03/ProofsAlias2.vo", "C03/ProofsDiv.vo", "C03/SpecH.vo", "C03/ProofsH.vo", "C03/PropsR2.vo",
            "C03/SpecM.vo", "C03/ProofsMBase.vo", "C03/ProofsMDense.vo", "C03/ProofsMIter.vo", "C03/ProofsMJ.vo",
            "C03/ProofsMLoops.vo", "C03/ProofsMSet.vo", "C03/ProofsMDot.vo", "C03/ProofsMDot2.vo", "C03/ProofsMInd.vo",
-           "C03/PropsM.vo"]
-PROPS = ["C03/Props.v", "C03/PropsR2.v", "C03/PropsM.v"]
+           "C03/PropsM.vo",
+           # round 3
+           "C03/ProofsMJ2.vo", "C03/PropsR3.vo"]
+PROPS = ["C03/Props.v", "C03/PropsR2.v", "C03/PropsM.v", "C03/PropsR3.v"]
 PARTIAL = ("Proved in Coq, for ALL worlds/vectors/matrices/operands (no bounds), about the hand-written models coq/C03/Model.v "
            "(vectors) and coq/C03/ModelM.v (whole matrices: header + one sparse vector / row-major list), both on top of the "
            "shared sparse-vector model coq/C11/Model.v (heap of cells + value map + ordered key set standing for the AVL index, "
@@ -21,9 +23,10 @@ PARTIAL = ("Proved in Coq, for ALL worlds/vectors/matrices/operands (no bounds),
            "float types only where the divisor divides the dividend (what the harness generates); x/0 on the float types is "
            "proved on the carrier extended by the codes of +Inf/-Inf/NaN for FINITE operands. NOT covered by a theorem: "
            "operands that are themselves non-finite and the derivatives of Real elements (Go-level differential run only, "
-           "harness/c03/special.go: six classes of storage/prior-content dependence reproduce on the unchanged library and are "
-           "reported as KNOWN-FINDING); for the Real types the iterators' notion of 'null' (value and derivatives) differs from "
-           "the matrix joint iterators' Ok() (value only), which the Z carrier cannot express (C03-MJOINT-DERIV0). Matrix "
+           "harness/c03/special.go: five classes of storage/prior-content dependence reproduce on the unchanged library and are "
+           "reported as KNOWN-FINDING; an element of value 0 with a non-zero derivative — not null, which the Z carrier cannot "
+           "express — is covered there only: regression cases for the matrix joint iterators' Ok() flag, e83c5e9). The public "
+           "JointIterator theorem is for a sparse receiver matrix with an operand of the same shape. Matrix "
            "theorems are for whole matrices only (views/transposes: C10) and for a sparse receiver distinct from its operands "
            "(the code panics for MdotM r = a / r = b; for the element-wise matrix operations aliasing is tied by the "
            "correspondence only); dense r.MdotM(r, r) is the known finding F-MDOTM-RR (modelled, refuted, excluded by "
@@ -181,7 +184,8 @@ def run(ctx):
     ok, failures = vlib.proof_stage(ctx, TARGETS, PROPS)
     mods = [("C03.Props", vlib.theorem_names(os.path.join(vlib.COQ, "C03/Props.v"))),
             ("C03.PropsR2", vlib.theorem_names(os.path.join(vlib.COQ, "C03/PropsR2.v"))),
-            ("C03.PropsM", vlib.theorem_names(os.path.join(vlib.COQ, "C03/PropsM.v")))]
+            ("C03.PropsM", vlib.theorem_names(os.path.join(vlib.COQ, "C03/PropsM.v"))),
+            ("C03.PropsR3", vlib.theorem_names(os.path.join(vlib.COQ, "C03/PropsR3.v")))]
     ctx.cov["theorems"] = [t for _, ths in mods for t in ths]
     if ok:
         ctx.cov["print_assumptions"] = vlib.print_assumptions("C03", mods, ctx.dir)
